@@ -248,7 +248,18 @@ func runFOUNDCHECK(c *Ctx) {
 			found := false
 			if v, isC := ir.ConstBool(r.Results[0]); isC {
 				found = v
-			} else if isNodePtr(r.Results[0].Type()) && !ir.IsNilConst(r.Results[0]) {
+				// once the key comparison came out equal the entry exists, whatever its value is: "not found" is wrong
+				if !v && equalFact(r.Block()) {
+					c.Violation(fn, P.InstrPos(r), "'not found' although the key compared equal",
+						"a return after the key was confirmed reports the entry as absent (e.g. an entry whose stored value is nil): a present key is reported not found")
+				}
+			} else if isNodePtr(r.Results[0].Type()) {
+				if ir.IsNilConst(r.Results[0]) {
+					// success without a node: the caller goes on to use it
+					c.Violation(fn, P.InstrPos(r), "success return without a node",
+						name+" returns a nil node together with a nil error: the caller treats that as 'found' and dereferences the node (Delete of an absent key or with a non-matching value panics instead of failing)")
+					continue
+				}
 				found = true
 			}
 			if !found {
